@@ -598,11 +598,20 @@ def r01d(ctx):
     fl = [l for l in loops[1:] if dotted(l.iter) == other]
     good = False
     if fl:
-        ifs2 = [s for s in fl[0].body if isinstance(s, ast.If)]
-        if ifs2:
-            ttxt = ast.unparse(ifs2[0].test).replace(" ", "")
-            good = "notinself._children" in ttxt and _yields_per_path(ifs2[0].body) == {1} and not ifs2[0].orelse \
-                and any(isinstance(c, ast.Call) and call_name(c) == "Insert" for c in ast.walk(ifs2[0]))
+        # exactly one `yield Insert(...)` in the loop, and the only thing that decides it is "this pair's key is not one of
+        # ours" - written as an `if ... not in`, or as a guard clause `if ... in ...: continue`
+        ys = [y for y in ast.walk(fl[0]) if isinstance(y, ast.Yield)]
+        ins = [y for y in ys if isinstance(y.value, ast.Call) and call_name(y.value) == "Insert"]
+        if len(ys) == 1 and len(ins) == 1 and isinstance(fl[0].target, ast.Name):
+            v = fl[0].target.id
+            signed = set()
+            for t, pol in flatten_conditions(dominating_conditions(ins[0], stop=fl[0])):
+                if isinstance(t, ast.Compare) and len(t.ops) == 1 and isinstance(t.ops[0], (ast.In, ast.NotIn)):
+                    signed.add((ast.unparse(t.left).replace(" ", ""), ast.unparse(t.comparators[0]).replace(" ", ""),
+                                isinstance(t.ops[0], ast.In) == pol))
+                else:
+                    signed.add((ast.unparse(t), None, pol))
+            good = signed == {(f"{v}.key", "self._children", False)} and dotted(kwarg(ins[0].value, "to_insert", 0)) == v
     if good:
         ctx.proved("R01d", f.file, "FixedKeyDictNode._child_edits", fl[0], "foreign pairs",
                    "pairs of the other mapping are inserted exactly when their key is absent here (complement of the own-pair test)")
